@@ -1,6 +1,8 @@
 import PdshVerif.Base.Hex
 import PdshVerif.Dsh.Exit
 import PdshVerif.Dsh.ExitSpec
+import PdshVerif.Dsh.ExitKill
+import PdshVerif.Dsh.ExitRefuse
 import Driver.Util
 
 /-!
@@ -13,6 +15,13 @@ import Driver.Util
           (`w...` = the value of rcmd_destroy is exec_destroy of that wait status)
       xd e<n> | xd s<n> | xd null                -> "<ret>"
       cmd S K HEX                                -> "<hex of the command string handed to the transport>"  (`sentCommand`)
+      refusals                                   -> "<comma separated names of the refusal paths of the model>"  (`Refusal.all`)
+      outcome NAME                               -> "status <n>" | "unknown"   (`statusOfName`: a refusal, an information-only ending, started)
+      ksched S K CMDTMO SCRIPT[;SCRIPT...] EVENTS -> "exit <n> how=<mid:i|tear:i|ret> sig=<i,j..|-> ph=<one letter per target> rest=<k>"
+                                                   | "running ph=..." | "invalid <k> ph=..."
+          the -k transition system `Kill.exec` (Dsh/ExitKill.lean) on an explicit schedule.  EVENTS = comma separated
+          s<i> (start) c<i> (connected) p<i>.<n> (poll, n lines) a<i> (poll: all remaining lines) l<i> (leave) t<i> (teardown) r (ret);
+          ph: n new, c connecting, r reading, e atEnd, f finished; rest = events left over after the process ended
   `pdshmodel exit spec`
       adm S K REFUSED OUTCOMES EXIT              -> "ok" | "bad"
           OUTCOMES = comma separated  e<n> | s<n> | cf | to   ("-" = none)
@@ -58,6 +67,60 @@ def parseHost (fx : Fixes) (cmdtmo : Int) (spec : String) : Option Host :=
 def parseHosts (fx : Fixes) (cmdtmo : Int) (s : String) : Option (List Host) :=
   ((s.splitOn ";").filter (· ≠ "")).mapM (parseHost fx cmdtmo)
 
+/-! ### `ksched`: the -k transition system on an explicit schedule -/
+open Kill in
+def parseTarget (fx : Fixes) (cmdtmo : Int) (spec : String) : Option Target :=
+  if (spec.splitOn ",").contains "x1" then some none
+  else (parseScript fx cmdtmo spec).map some
+
+open Kill in
+def phaseLetter : Phase → String
+  | .new => "n" | .connecting => "c" | .reading _ _ => "r" | .atEnd _ _ => "e" | .finished _ => "f"
+
+open Kill in
+/-- the argument of `a<i>`: all lines of target i not handled yet (only the ARGUMENT of the event is computed here;
+    the transition is `Kill.step`) -/
+def remaining (ts : List Kill.Target) (ps : List Phase) (i : Nat) : Nat :=
+  match ps[i]?, ts[i]? with
+  | some (.reading seen _), some (some sc) => (linesOf sc).length - seen
+  | _, _ => 0
+
+open Kill in
+def parseEv (ts : List Target) (ps : List Phase) (w : String) : Option Ev :=
+  match w.toList with
+  | ['r'] => some .ret
+  | 's' :: r => (String.ofList r).toNat?.map .start
+  | 'c' :: r => (String.ofList r).toNat?.map .connected
+  | 'l' :: r => (String.ofList r).toNat?.map .leave
+  | 't' :: r => (String.ofList r).toNat?.map .teardown
+  | 'a' :: r => (String.ofList r).toNat?.map fun i => .poll i (remaining ts ps i)
+  | 'p' :: r =>
+    match (String.ofList r).splitOn "." with
+    | [i, n] => do let i ← i.toNat?; let n ← n.toNat?; pure (.poll i n)
+    | _ => none
+  | _ => none
+
+open Kill in
+def showSt (rest : Nat) : St → String
+  | .run ps => s!"running ph={String.join (ps.map phaseLetter)}"
+  | .exited c how ps sg =>
+    let h := match how with | .midstream i => s!"mid:{i}" | .teardown i => s!"tear:{i}" | .returned => "ret"
+    let g := if sg = [] then "-" else ",".intercalate (sg.map toString)
+    s!"exit {c} how={h} sig={g} ph={String.join (ps.map phaseLetter)} rest={rest}"
+
+open Kill in
+/-- feed the events one by one to `Kill.step`; stop when the process has ended -/
+def runSched (fx : Fixes) (fl : Flags) (ts : List Target) : St → List String → String
+  | s, [] => showSt 0 s
+  | .exited c how ps sg, ws => showSt ws.length (.exited c how ps sg)
+  | .run ps, w :: ws =>
+    match parseEv ts ps w with
+    | none => "bad-op"
+    | some e =>
+      match step fx fl ts (.run ps) e with
+      | none => s!"invalid {ws.length + 1} ph={String.join (ps.map phaseLetter)}"
+      | some s' => runSched fx fl ts s' ws
+
 def stepModel (fx : Fixes) (line : String) : String :=
   match Driver.words line with
   | ["xrc", hx] =>
@@ -74,6 +137,15 @@ def stepModel (fx : Fixes) (line : String) : String :=
       | none => s!"noret exit {e}"
       | some r => s!"ret {r} exit {e}"
     | _, _ => "bad-op"
+  | ["ksched", s, k, tmo, scripts, evs] =>
+    match ((scripts.splitOn ";").filter (· ≠ "")).mapM (parseTarget fx (tmo.toInt?.getD 0)) with
+    | some ts => runSched fx { S := s ≠ "0", k := k ≠ "0" } ts (Kill.init ts) ((evs.splitOn ",").filter (· ≠ ""))
+    | none => "bad-op"
+  | ["refusals"] => ",".intercalate (Refusal.all.map Refusal.name)
+  | ["outcome", name] =>
+    match statusOfName name with
+    | some n => s!"status {n}"
+    | none => "unknown"
   | ["cmd", s, k, hx] =>
     match Hex.decodeToChars hx with
     | some c => Hex.encodeChars (sentCommand { S := s ≠ "0", k := k ≠ "0" } c)
